@@ -82,7 +82,7 @@ func (s *vHybSys) Reset() {
 	s.failed = map[uint32]string{}
 	s.returned = map[uint32]bool{}
 	s.autoN = 0
-	nodeIDCounter = 100
+	nodeIDCounter = 100 + vIDBase
 	documentFilterPool.Reset()
 	heapPool.Reset()
 }
@@ -102,7 +102,13 @@ func (s *vHybSys) willFail(d vDoc) bool {
 func (s *vHybSys) Enabled() []vOp {
 	var ops []vOp
 	for _, id := range []uint32{1, 2} {
-		if _, ok := s.live[id]; ok {
+		if _, ok := s.live[id+vIDBase]; ok {
+			// AddWithID on an id that is still live: a valid one replaces the document
+			// (the new content, and only the new content, is findable: documents 2 and 3
+			// supply fewer modalities than 0 and 1), a failing one changes nothing
+			for _, di := range []int{2, 3, 4, 5} {
+				ops = append(ops, vOp{K: "AddWithID", A: int(id), B: di})
+			}
 			continue
 		}
 		for di := range vC06Docs {
@@ -152,7 +158,7 @@ func (s *vHybSys) Apply(op vOp, hist []vOp, check bool) {
 				s.returned[id] = true
 			}
 		} else {
-			id = uint32(op.A)
+			id = uint32(op.A) + vIDBase
 			err = s.idx.AddWithID(id, vCopyVec(d.Vec), d.Text, vCloneMeta(d.Meta))
 		}
 		wantFail := s.willFail(d)
@@ -177,7 +183,7 @@ func (s *vHybSys) Apply(op vOp, hist []vOp, check bool) {
 			}
 		}
 	case "Remove":
-		id := uint32(op.A)
+		id := uint32(op.A) + vIDBase
 		err := s.idx.Remove(id)
 		_, isLive := s.live[id]
 		if check && isLive != (err == nil) {
@@ -534,7 +540,7 @@ func (s *vReaddSys) Reset() {
 func (s *vReaddSys) Enabled() []vOp {
 	var ops []vOp
 	for _, id := range []uint32{1, 2} {
-		if _, ok := s.live[id]; ok {
+		if _, ok := s.live[id+vIDBase]; ok {
 			continue
 		}
 		for ci := 0; ci < 3; ci++ {
@@ -542,7 +548,7 @@ func (s *vReaddSys) Enabled() []vOp {
 		}
 	}
 	for _, id := range []uint32{1, 2} {
-		if _, ok := s.live[id]; ok {
+		if _, ok := s.live[id+vIDBase]; ok {
 			ops = append(ops, vOp{K: "Remove", A: int(id)})
 		}
 	}
@@ -552,7 +558,7 @@ func (s *vReaddSys) Enabled() []vOp {
 
 func (s *vReaddSys) Apply(op vOp, hist []vOp, check bool) {
 	h := func() []string { return vHistStrings(append(hist, op)) }
-	id := uint32(op.A)
+	id := uint32(op.A) + vIDBase
 	var err error
 	switch op.K {
 	case "Add":
@@ -855,9 +861,28 @@ func init() {
 					vBFS(c, &vReaddSys{c: c, kind: cfg.Kind, cfg: cfg, cfgS: "readd " + cfg.String()}, dr)
 				}})
 			}
+			// the same spaces with every id shifted to around 2^16 and 2^31 (auto ids too)
+			for _, base := range vIDBases[:2] {
+				base := base
+				sh = append(sh, vShard{Name: fmt.Sprintf("bigids/%d", base), Run: func(c *vCtx) {
+					vIDBase = base
+					defer func() { vIDBase = 0 }()
+					cfg := vHybCfgs()[0]
+					vBFS(c, &vHybSys{c: c, cfg: cfg, cfgS: cfg.String() + vIDBaseTag()}, 3)
+					for _, rc := range vC06ReaddCfgs() {
+						vBFS(c, &vReaddSys{c: c, kind: rc.Kind, cfg: rc, cfgS: "readd " + rc.String() + vIDBaseTag()}, 4)
+					}
+				}})
+			}
 			return sh
 		},
 		Replay: func(c *vCtx, v *vViolation) bool {
+			if i := strings.Index(v.Config, " idbase="); i >= 0 {
+				var b uint32
+				fmt.Sscanf(v.Config[i:], " idbase=%d", &b)
+				vIDBase = b
+				defer func() { vIDBase = 0 }()
+			}
 			if strings.HasPrefix(v.Config, "readd ") {
 				cfg := vParseVecCfg(strings.TrimPrefix(v.Config, "readd "))
 				vReplayHist(&vReaddSys{c: c, kind: cfg.Kind, cfg: cfg, cfgS: v.Config}, v.History)
